@@ -6,6 +6,7 @@
 #include <stdlib.h>
 #include <limits.h>
 #include <float.h>
+#include <math.h>
 #include <string.h>
 
 #include "types.h"
@@ -243,6 +244,11 @@ extern MPT_INTERFACE(metatype) *_mpt_iterator_factor(MPT_STRUCT(value) *val)
 			errno = EINVAL;
 			return 0;
 		}
+	}
+	/* no elements for values without number */
+	if (!isfinite(fd.base) || !isfinite(fd.fact) || !isfinite(fd.init)) {
+		errno = EINVAL;
+		return 0;
 	}
 	if (!(data = malloc(sizeof(*data)))) {
 		return 0;
